@@ -358,6 +358,17 @@ package git
 // size: recorded finding (same root cause as exact-size above).
 //@ func (*Repository).NewBatchObjectIter$2
 //@   modifies everything
+//@   call 0 ParseBatchHeader as ph
+//@   call 0 ParseBatchHeader assert len(arg_0) == 0
+// the object's bytes are read in full (size + the trailing LF git appends)
+// and the record carries exactly the first `size` of them
+//@   call 0 io.ReadFull assert wide(len(arg_1)) == wide(ph0.ObjectSize) + 1 || ph0.ObjectSize == 4294967295
+
+// request-objects stage of the batch iterator: as for NewObjectIter$1.
+//@ func (*Repository).NewBatchObjectIter$1
+//@   modifies everything
+//@   call 0 OID).String as hex
+//@   call 0 fmt.Fprintln assert arg_0 == box(out, "*bufio.Writer") && len(arg_1) == 1 && dyntype(arg_1[0], "string") && keyof(unbox(arg_1[0], "string")) == keyof(hex)
 
 //@ property C05: ParseBatchHeader (*Repository).NewBatchObjectIter$2
 
@@ -379,3 +390,43 @@ package git
 //@   ensures result1 ==> result2 == nil
 
 //@ property C10: (*ObjectIter).Next (*BatchObjectIter).Next (*ReferenceIter).Next
+
+// ---------------------------------------------------------------- pipeline stages of NewObjectIter (C01, C16)
+// request-objects ($1): every object id taken from the channel is written as
+// its 40-digit hex form (one line each) and nothing else is written.
+// copy-oids ($2): of every line git rev-list prints, exactly the first 40 bytes
+// (the object id; a path may follow) and a line feed go to git cat-file; a line
+// shorter than that is an error, never a slice panic.
+// object-parser ($3): every header line is parsed by ParseBatchHeader and a
+// parse failure ends the stage with an error.
+//@ func (*Repository).NewObjectIter$1
+//@   modifies everything
+//@   call 0 OID).String as hex
+//@   call 0 fmt.Fprintln assert arg_0 == box(out, "*bufio.Writer") && len(arg_1) == 1 && dyntype(arg_1[0], "string") && keyof(unbox(arg_1[0], "string")) == keyof(hex)
+
+//@ func (*Repository).NewObjectIter$2
+//@   modifies everything
+//@   call 0 Writer).Write as w
+//@   call 0 Writer).Write assert len(arg_1) == 40 && (forall k int :: 0 <= k && k < 40 ==> arg_1[k] == line[k])
+//@   call 0 Writer).WriteByte assert arg_1 == 10
+//@   ensures len(line) < 40 ==> result != nil && !w_reached
+//@   ensures len(line) >= 40 ==> w_reached
+
+//@ func (*Repository).NewObjectIter$3
+//@   modifies everything
+//@   call 0 ParseBatchHeader as ph
+//@   call 0 ParseBatchHeader assert len(arg_0) == 0
+
+//@ property C01: (*Repository).NewObjectIter$1 (*Repository).NewObjectIter$2 (*Repository).NewObjectIter$3 (*Repository).NewBatchObjectIter$1
+//@ property C16: (*Repository).NewObjectIter$2
+
+// parse-refs stage of the reference iterator: every line of `git
+// for-each-ref` (without its LF) goes through ParseReference; a parse failure
+// or a read error ends the stage with an error.
+//@ func (*Repository).NewReferenceIter$1
+//@   modifies everything
+//@   call 0 ParseReference as pr
+//@   call 0 ParseReference assert len(arg_0) == len(line) - 1 && (forall k int :: 0 <= k && k < len(line) - 1 ==> arg_0[k] == line[k])
+
+//@ property C01: (*Repository).NewReferenceIter$1
+//@ property C16: (*Repository).NewReferenceIter$1 (*Repository).NewObjectIter$3
